@@ -251,6 +251,7 @@ func ReleaseHashNode(node *HashNode) {
 		return
 	}
 	node.items = nil
+	node.order = nil
 	HashNodePool.Put(node)
 }
 
